@@ -22,6 +22,9 @@ SITE_U = "sigpyproc.io.bits.unpack"
 SITE_P = "sigpyproc.io.bits.pack"
 
 
+_HELD: list = []          # (array returned by an earlier call, copy of its contents at return time)
+
+
 def _outcome(fn):
     try:
         return "ok", fn()
@@ -59,7 +62,18 @@ def _ev(api, nbits, order, inp, outbuf_mode, *, dtype=np.uint8, outsize=None, ke
 
         def call():
             return f(arr, nbits, buf, bitorder=order)
+    inp_before = arr.copy()
     oc, out = _outcome(call)
+    # results are values, not views of library-owned scratch space: every array returned earlier (and still held by its caller)
+    # must be unchanged by this call, and so must this call's input
+    stale = [k for k, (ref, snap) in enumerate(_HELD) if not np.array_equal(ref, snap)]
+    intact = bool(not stale and np.array_equal(arr, inp_before))
+    if stale:
+        for k in sorted(stale, reverse=True):
+            del _HELD[k]
+    if out is not None and out is not buf:
+        _HELD.append((out, out.copy()))
+        del _HELD[:-6]
     same_buf = bool(out is buf) if (buf is not None and out is not None) else True
     return {
         "api": api, "dtypeOk": bool(arr.dtype == np.uint8), "nbits": int(nbits),
@@ -67,7 +81,7 @@ def _ev(api, nbits, order, inp, outbuf_mode, *, dtype=np.uint8, outsize=None, ke
         "outcome": oc, "inp": [int(x) for x in arr.astype(np.int64)] if arr.dtype.kind in "ui" else [0] * arr.size,
         "out": [int(x) for x in out] if out is not None else [],
         "site": ("kernel" if kernel else "api"), "buf": outbuf_mode, "order": order, "sameBuf": same_buf,
-        "outDtypeOk": bool(out.dtype == np.uint8) if out is not None else True,
+        "outDtypeOk": bool(out.dtype == np.uint8) if out is not None else True, "intact": intact,
     }
 
 
@@ -172,6 +186,16 @@ def run(v) -> None:
                         events.append(_ev("pack", nb, sp, arr, mode))
                         if (ti + p) % 4 == 0:
                             events.append(_ev("pack", nb, order, arr, "dirty", kernel=True))
+    # all-zero inputs into dirty caller buffers (a "nothing to do" shortcut must still write the zeros), every small length
+    for nb in (1, 2, 4):
+        fact = 8 // nb
+        for order in ("big", "little"):
+            for n in (1, 2, 3, 5, 8, 16, 17, 33):
+                events.append(_ev("unpack", nb, order, [0] * n, "dirty"))
+                events.append(_ev("unpack", nb, order, [0] * n, "none"))
+                events.append(_ev("pack", nb, order, [0] * (n * fact), "dirty"))
+                events.append(_ev("unpack", nb, order, [0] * n, "dirty", kernel=True))
+                events.append(_ev("pack", nb, order, [0] * (n * fact), "dirty", kernel=True))
     # long arrays: lengths around every power of two and multiple of 16 up to 1 kB, random contents, aligned and not -
     # vectorised / batched kernels have a main loop and a remainder loop, and the seam is where they go wrong
     longs = sorted({a + b for a in (16, 32, 48, 64, 96, 128, 256, 512, 1024) for b in (-1, 0, 1, 7)} | {9, 13, 23, 40, 100, 333})
@@ -214,12 +238,16 @@ def run(v) -> None:
         key = (e["api"], e["site"], e["nbits"], e["order"], e["buf"], tuple(e["inp"]), e["outsize"], e["dtypeOk"])
         if (e["outcome"] == "ok" and e["insize"] > 0) or e["outcome"] != "ok":
             v.nontrivial.add(key)
+        if not e["intact"]:
+            v.violation("ResultsAreValues", SITE_U if e["api"] == "unpack" else SITE_P,
+                        {k: e[k] for k in ("api", "nbits", "order", "buf", "insize")}, "an array returned by an earlier call (or this call's input) changed",
+                        "earlier results and the input are left alone")
         if e["outcome"] == "ok" and not (e["sameBuf"] and e["outDtypeOk"]):
             v.violation("BufferIdentity", SITE_U if e["api"] == "unpack" else SITE_P,
                         {k: e[k] for k in ("api", "nbits", "order", "buf")}, "other buffer/dtype", "caller's buffer")
     # batch into traces of 200 events each
     traces = [{"hdr": {}, "ev": [{k: e[k] for k in ("api", "dtypeOk", "nbits", "orderHead", "insize", "outsize",
-                                                    "outcome", "inp", "out")} for e in events[i:i + 200]],
+                                                    "outcome", "inp", "out", "intact")} for e in events[i:i + 200]],
                "raw": events[i:i + 200]} for i in range(0, len(events), 200)]
     for tr, pos in tracecheck.validate("Trace_Bits", traces, verdict=v, label="bits calls"):
         e = tr["raw"][abs(pos) - 1]
